@@ -66,9 +66,9 @@ def _join(prop_text, note="Trusted: TLC, Go testing/synctest virtual clock; boun
 CHECKS.update({
  "C03": _join("TLC checks the concatenation/size invariants (ghost viol set inside the send action) of the explicit-time Join/Unite specifications in the free, urgent and ready regimes; TLC-enumerated and seeded timed schedules are replayed lock-step into the real v2 join, v2 unite and v1 join (copy and no-copy) in synctest bubbles; every recorded trace is validated against the trace specification (conformance) and judged by Mon_Join: concatenation of received slices = written sequence, no empty slice, size rules."),
  "C08": _join("Memory-ownership model (mem identities, owner) in Join/Unite checked by TLC; a retaining, scribbling consumer keeps every delivered slice, re-reads it after each later step and overwrites copy-mode slices; v1 Stop/cancel injected between delivery and release; Mon_Join decides: retained contents unchanged, copy-mode outputs never alias, no output between a no-copy delivery and its release."),
- "C09": _join("TLC checks 'short => timeout or final' inside the send action and the greedy reference batching in untimed configurations; the real code is driven with exact virtual timestamps; Mon_Join decides greedy batching (untimed) and delivered-no-earlier-than-Timeout-after-the-previous-delivery for short non-final slices; all unite length sequences over {0,1,J-1,J,J+1} up to the bound."),
- "C10": _join("TLC checks the age bound T + T div Div of the oldest buffered element in the urgent-with-ready-consumer regime; lock-step traces with a ready consumer (virtual clock, zero scheduling latency) for several inaccuracies and timeouts; Mon_Join decides deliveredAt - acceptedAt <= Timeout*(1+1/floor(100/inaccuracy)); directed schedules at the acceptance boundary of the constructors and with writes landing exactly at tick instants."),
- "C11": _join("Unite specification with slice-valued input: TLC checks that every non-empty input slice lies wholly in one output slice, empty ones leave no trace, oversize slices are outputs of their own after the flush; all sequences of slice lengths over {0,1,J-1,J,J+1} replayed into the real unite; Mon_Join decides on the recorded boundaries."),
+ "C09": _join("TLC checks 'short => timeout or final' inside the send action and the greedy reference batching in untimed configurations; the real code is driven with exact virtual timestamps; Mon_Join decides greedy batching (untimed) and delivered-no-earlier-than-Timeout-after-the-previous-delivery for short non-final slices; Apalache: JoinInd.tla (timing clause, every Timeout/period/JoinSize) and UniteInd.tla (unite size and maximality clauses, every JoinSize and slice-length sequence) as inductive invariants with twins that must fail; all unite length sequences over {0,1,J-1,J,J+1} up to the bound."),
+ "C10": _join("TLC checks the age bound T + T div Div of the oldest buffered element in the urgent-with-ready-consumer regime; lock-step traces with a ready consumer (virtual clock, zero scheduling latency) for several inaccuracies and timeouts; Mon_Join decides deliveredAt - acceptedAt <= Timeout*(1+1/floor(100/inaccuracy)); Apalache: the age bound as an inductive invariant of JoinInd.tla for every Timeout, ticker period, JoinSize and arrival pattern (twins must fail); several disciplines fed from ONE input channel judged by Mon_JoinShared; directed schedules at the acceptance boundary of the constructors and with writes landing exactly at tick instants."),
+ "C11": _join("Unite specification with slice-valued input: TLC checks that every non-empty input slice lies wholly in one output slice, empty ones leave no trace, oversize slices are outputs of their own after the flush; Apalache: UniteInd.tla proves the size clauses for every JoinSize and every sequence of slice lengths (twins must fail); all sequences of slice lengths over {0,1,J-1,J,J+1} replayed into the real unite; Mon_Join decides on the recorded boundaries."),
 })
 
 def _limit(prop_text):
@@ -77,7 +77,7 @@ def _limit(prop_text):
                 technique="explicit-time TLA+ spec + TLC (incl. edge cover of the state graph as schedules); lock-step traces validated by TLC (Trace_Limit) and judged by the TLA+ monitor Mon_Limit")
 
 CHECKS.update({
- "C04": _limit("TLC checks the structural invariants (batch starts >= Interval apart, <= Quantity per batch) and, in a tiny configuration with the full emission history, the cumulative and pairwise window formulas; an edge cover of the state graph plus seeded profiles (prefilled, trickle, stall-then-burst, slow consumer, 40+ intervals) are replayed lock-step into the real limit discipline; Mon_Limit applies the cumulative and the all-pairs window formula to the exact virtual emission instants."),
+ "C04": _limit("TLC checks the structural invariants (batch starts >= Interval apart, <= Quantity per batch) and, in a tiny configuration with the full emission history, the cumulative and pairwise window formulas; Apalache: LimitInd.tla proves the cumulative bound and the spacing of batch starts inductive for every Quantity, Interval and instant (twins mirroring seeded changes must fail); an edge cover of the state graph plus seeded profiles (prefilled, trickle, stall-then-burst, slow consumer, 40+ intervals) are replayed lock-step into the real limit discipline; Mon_Limit applies the cumulative and the all-pairs window formula to the exact virtual emission instants."),
  "C12": _limit("TLC checks order/losslessness, closed => everything forwarded, inClosed ~> outClosed under fairness (with vacuity twins) and the exact schedule with everything available up-front; Mon_Limit decides on recorded traces: received = written prefix, closes only after the input closed and everything was forwarded, closes by the virtual deadline, element j at exactly (j div Q)*I with a ready consumer, fewer than Quantity elements without any pause, and for every arrival pattern element j > Q leaves no later than max(written, element j-1 left, element j-Q left + Interval)."),
 })
 
